@@ -98,6 +98,7 @@ func runMem(c *MCase) (st mStats, err error) {
 	}
 	helds := map[int]*heldIt{}
 	mutations := 0
+	everSeq := map[string]map[string]bool{} // every pair ever stored by the sequential part
 	releaseHelds := func() {
 		for s, h := range helds {
 			h.it.Release()
@@ -125,7 +126,29 @@ func runMem(c *MCase) (st mStats, err error) {
 		sk := key(mv.K)
 		what := mv.M
 		if what == "next" && h.pos == 0 && h.stale {
-			what, sk = "seek", append([]byte{}, h.key...)
+			if len(h.key)%2 == 0 {
+				what, sk = "seek", append([]byte{}, h.key...)
+			} else {
+				// step from a pair that has been deleted: its successor link is history, so the
+				// landing point is not determined - but it must lie after the key the iterator
+				// stood on, inside the range, and be a pair that was stored at some time
+				if h.it.Next() {
+					k, v := h.it.Key(), h.it.Value()
+					if cmp.Compare(k, h.key) <= 0 {
+						return fmt.Errorf("op #%d long-lived iterator: Next from the deleted key %q went to %q, which does not sort after it", i, h.key, k)
+					}
+					if (h.s != nil && cmp.Compare(k, h.s) < 0) || (h.l != nil && cmp.Compare(k, h.l) >= 0) {
+						return fmt.Errorf("op #%d long-lived iterator [%q,%q): Next from the deleted key %q left the range: %q", i, h.s, h.l, h.key, k)
+					}
+					if !everSeq[string(k)][string(v)] {
+						return fmt.Errorf("op #%d long-lived iterator: Next from the deleted key %q yields %q -> %.30q, a pair that was never stored", i, h.key, k, v)
+					}
+					h.key = append([]byte{}, k...) // still not known to stand on a live node
+				} else {
+					h.pos, h.key, h.stale = 1, nil, false
+				}
+				return nil
+			}
 		}
 		var got, want bool
 		switch what {
@@ -215,6 +238,10 @@ func runMem(c *MCase) (st mStats, err error) {
 				ka[j] = 0xAA // the memdb must have copied the key
 			}
 			m.Put(k, v)
+			if everSeq[string(k)] == nil {
+				everSeq[string(k)] = map[string]bool{}
+			}
+			everSeq[string(k)][string(v)] = true
 		case "del":
 			_, ok := m.Get(k)
 			err := db.Delete(k)
